@@ -164,6 +164,36 @@ def run(ctx, report):
             raise AnalysisError('%s overrides __ne__ (not modelled)' % c)
         if not bad:
             R1.ok(c, sample='%s: fields=%s eq=%s hash=%s' % (c, M.fields[c], eqf, sorted(hf.read)))
+    # equal nodes have equal widths: what get_size() reads must take part in __eq__
+    for c in NODE_CLASSES:
+        meths = M.methods[c]
+        if 'get_size' not in meths or '__eq__' not in meths:
+            continue
+        gs = meths['get_size'].fn
+        rets = [n for n in ast.walk(gs) if isinstance(n, ast.Return) and n.value is not None]
+        for r in rets:
+            v = r.value
+            # self.<field>.<attr> : a width carried by a non-node payload (the modular integer of a constant)
+            if isinstance(v, ast.Attribute) and isinstance(v.value, ast.Attribute) and u(v.value.value) == 'self' and v.value.attr in M.fields[c]:
+                fld, attr = v.value.attr, v.attr
+                eqfn = meths['__eq__'].fn
+                other = eqfn.args.args[1].arg
+                direct = any(isinstance(n, ast.Compare) and len(n.ops) == 1 and {u(n.left), u(n.comparators[0])} == {'self.%s.%s' % (fld, attr), '%s.%s.%s' % (other, fld, attr)}
+                             for n in ast.walk(eqfn))
+                # or the payload's own __eq__ compares it
+                payload_eq = False
+                try:
+                    pe = ctx.mod('modint').method('moduint', '__eq__')
+                    payload_eq = any(isinstance(n, ast.Compare) and ('.%s' % attr) in u(n) or '__class__' in u(n) for n in ast.walk(pe) if isinstance(n, ast.Compare))
+                except AnalysisError:
+                    pass
+                inst = '%s:width-in-eq' % c
+                if direct or payload_eq:
+                    R1.ok(inst, sample='%s: get_size() reads self.%s.%s, compared by __eq__' % (c, fld, attr))
+                else:
+                    R1.violation(inst, '%s.__eq__:width' % c, '%s.get_size() is self.%s.%s, but __eq__ compares self.%s with a payload equality that ignores %s: constants of different '
+                                 'widths are equal (and hash alike), so dictionaries and caches keyed by expressions confuse them' % (c, fld, attr, fld, attr), where(mod, eqfn),
+                                 witness='ExprInt8(1) == ExprInt32(1); eval_expr(Compose(rol8(0x81,1), 0:8, rol16(0x81,1))) returns the 8-bit result for the 16-bit rotation (evaluation cache)')
     ne = mod.method('Expr', '__ne__')
     a = ne.args.args[1].arg
     rets = [n for n in ast.walk(ne) if isinstance(n, ast.Return)]
@@ -355,6 +385,7 @@ def _check_ctor_call(R, mod, c, meth, call, M):
 
 
 MUTANTS = [
+    ('int-eq-no-width', 'miasmx/expression/expression.py', "        return self.arg == a.arg and self.arg.size == a.arg.size", "        return self.arg == a.arg", 'C15.D1'),
     ('op-eq-zip', 'miasmx/expression/expression.py', "        if len(self.args) != len(a.args):\n            return False\n        for i, x in enumerate(self.args):\n            if not x == a.args[i]:\n                return False\n        return True\n    def __hash__(self):\n        h = hash(self.op)",
      "        for x, y in zip(self.args, a.args):\n            if not x == y:\n                return False\n        return True\n    def __hash__(self):\n        h = hash(self.op)", 'C15.D1'),
     ('slice-eq-stop', 'miasmx/expression/expression.py',
